@@ -314,6 +314,7 @@ class _Text:
 
 
 def model_undictify_all(ctx, a, res, rec):
+    _set_doc_origin(ctx, rec, _origin(ctx, a["doc"]))
     doc = _fresh(ctx, a["doc"])
     try:
         exp = m_undictify(doc)
@@ -325,7 +326,7 @@ def model_undictify_all(ctx, a, res, rec):
     return _viol("wrong-value", d) if d else None
 
 
-@op("ld.undictify_all", model=model_undictify_all)
+@op("ld.undictify_all", model=model_undictify_all, handle="value")
 def ld_undictify_all(ctx, a, seam):
     nl, dl, cdl = _mods()
     return dl.undictify_all_complex_values(ctx.arg(a["doc"]))
@@ -374,7 +375,22 @@ def ld_dictify_flat(ctx, a, seam):
     return dl.dictify_complex_values(ctx.arg(a["doc"]))
 
 
+def _origin(ctx, ref):
+    """the recipe a document (pool object or loaded handle) goes back to"""
+    if isinstance(ref, dict) and "p" in ref:
+        return ref
+    if isinstance(ref, dict) and "h" in ref:
+        return ctx.model_state.get("doc_origin", {}).get(ref["h"])
+    return None
+
+
+def _set_doc_origin(ctx, rec, origin):
+    if origin is not None:
+        ctx.model_state.setdefault("doc_origin", {})[rec["id"]] = origin
+
+
 def model_serialize(ctx, a, res, rec):
+    _set_doc_origin(ctx, rec, _origin(ctx, a["doc"]))
     if a["fmt"] not in ("json", "yaml", "yml"):
         return None if isinstance(res, BaseException) else _viol("accepted-malformed", "unknown format accepted")
     if isinstance(res, BaseException):
@@ -395,9 +411,11 @@ def model_deserialize(ctx, a, res, rec):
     """deserialize(serialize(doc, fmt), fmt) == doc ; for foreign texts: == model_undictify(parsed)"""
     if a["fmt"] not in ("json", "yaml", "yml"):
         return None if isinstance(res, BaseException) else _viol("accepted-malformed", "unknown format accepted")
-    if "expect" not in a:
+    origin = a.get("expect") or (_origin(ctx, a["text"]) if isinstance(a["text"], dict) and "h" in a["text"] else None)
+    _set_doc_origin(ctx, rec, origin)
+    if origin is None:
         return None
-    doc = _fresh(ctx, a["expect"])
+    doc = _fresh(ctx, origin)
     try:
         exp = m_undictify(doc)
     except ModelRaises:
@@ -408,7 +426,7 @@ def model_deserialize(ctx, a, res, rec):
     return _viol("roundtrip-differs", d) if d else None
 
 
-@op("ld.deserialize", seam="dict_preprocessor", model=model_deserialize)
+@op("ld.deserialize", seam="dict_preprocessor", model=model_deserialize, handle="value")
 def ld_deserialize(ctx, a, seam):
     nl, dl, cdl = _mods()
     src = a["text"]
@@ -429,7 +447,9 @@ def _foreign_text(ctx, a):
 
 # =========================================================================== files
 def model_dump(ctx, a, res, rec):
-    ctx.model_state.setdefault("dumps", {})[rec["id"]] = {"doc": a["doc"], "path": a["path"]}
+    origin = _origin(ctx, a["doc"])
+    if origin is not None:
+        ctx.model_state.setdefault("dumps", {})[rec["id"]] = {"doc": origin, "path": a["path"]}
     return None
 
 
@@ -458,6 +478,7 @@ def model_load(ctx, a, res, rec):
     src = _expected_from_store(ctx, rec)
     if src is None:
         return None                       # absent / unacknowledged content: nothing is promised
+    _set_doc_origin(ctx, rec, src["doc"])
     fmt = a["path"].rsplit(".", 1)[-1]
     if fmt not in ("json", "yaml", "yml"):
         return None if isinstance(res, BaseException) else _viol("accepted-malformed", "unknown suffix accepted")
@@ -474,7 +495,7 @@ def model_load(ctx, a, res, rec):
     return _viol("load-differs", d) if d else None
 
 
-@op("ld.load", reads="path", seam="deserialize_fcn", model=model_load)
+@op("ld.load", reads="path", seam="deserialize_fcn", model=model_load, handle="value")
 def ld_load(ctx, a, seam):
     nl, dl, cdl = _mods()
     if seam.used:
